@@ -62,7 +62,7 @@ prop('C07', prefix=['c07'],
      outside='save-and-reload in between (bitcode / xlsx), other formulas and orders, volatile functions, larger spill chains')
 prop('C08', prefix=['c08'],
      bounds='Model::set_cells_with_result on a formula cell of each kind (plain, CSE anchor over <=2x2 with its spill cells, dynamic anchor) with a result that is any '
-            'f64 (NaN and infinities included) or an array of 1x1..2x2 such numbers',
+            'f64 (NaN and infinities included) or an array of 1x1..2x2 such numbers; through the real evaluator: A1+B1, A1-B1, A1*B1, -A1, SUM(A1:B1), A1*B1+A1 over any two finite f64 leave a finite number or #NUM!',
      outside='whether a built-in function can produce a non-finite value in the first place (the ~495 functions), numbers typed by the user or read from files, '
              'strings/booleans/errors in arrays; the check decides: if a non-finite value reaches the store, is it stored?')
 prop('C09', prefix=['c09'],
